@@ -48,6 +48,9 @@ CLAIMED = {
  'C17': ('bounded exhaustive deviation enumeration of HTTP requests (total deviation budget over request line, headers, body) and exhaustive short request histories on the real request handler',
          'Every request that differs from a valid ExportIndication POST in at most 2 (3) dimensions - method, target, version, 17 headers with 2-14 alternatives each (absent, accepted and rejected forms, 8-bit, folded, huge, duplicated), body (every single structural deviation, prefix truncation, byte replacement at every offset, whole-body alternatives, parameter variants) - is given to the real ListenerRequestHandler on an in-memory socket; the bytes written must parse as exactly one HTTP response (independent parser: status line, token: value header lines without bare CR/LF, only known headers, body of Content-Length bytes), 200 bodies must be DTD-valid export responses, pywbem 400/406 responses need a CIMError header, an acknowledged indication is delivered exactly once, a rejected one never; after every request and every history of 1-2 (3) representative requests (unbounded and bounded queue, with and without draining) a valid indication is still acknowledged and delivered once.',
          'in-memory socket (complete delivery, short reads instead of blocking); HTTP/0.9-style requests and responses generated by the stdlib before pywbem code runs only need to be harmless; threading aspects are C16', '§5 C17'),
+ 'C19': ('bounded exhaustive enumeration of observer configurations x server-behaviour scenarios on the real client code, differential against the bare connection',
+         '46 scenarios (every operation family with valid responses incl. non-ASCII and astral text, CIM errors with error instances, CIM-XML and XML parse errors incl. invalid UTF-8, HTTP error statuses, wrong Content-type, transport exceptions) are executed on a bare connection and under every combination of logger (api/http/all x stderr/file x all/paths/summary/None/small integers), TestClientRecorder (on/off/disabled), an extra LogOperationRecorder, statistics and debug, and with EVERY integer detail level 0..R+2 on the multi-byte scenarios (all scenarios in thorough). Compared: result (strict dump) or exception class and args, last_raw_request/last_raw_reply vs the bytes exchanged, statistics counts, and absence of the password (and its base64 form) from all log records, recorder output, str() and repr().',
+         'scripted transport and the C02 response templates; log output is read from an in-memory handler plus the configured stream/file', '§5 C19'),
 }
 NOT_YET = 'check not built yet in this round (planned, see DESIGN.md §5); not claimed until it exists'
 
